@@ -628,6 +628,58 @@ def assemble_item(d, info, src, srcfile_label, log):
                 add(start + m_.start(), start + m_.end(), "", "DESUGAR_ASYNC")
                 for m_ in re.finditer(rb"\s*\.\s*await\b", src[bo:bc]):
                     add(bo + m_.start(), bo + m_.end(), "", "DESUGAR_ASYNC")
+            elif o == "desugar(with_infallible)":
+                # DESUGAR_WITH_INFALLIBLE: `with_infallible(|| { A?; B?; C })` -> `{ unwrap_infallible(A); unwrap_infallible(B);
+                # unwrap_infallible(C) }`. octseq's with_infallible runs the closure and unwraps a result whose error type
+                # converts into Infallible; the closure captures its target by mutable reference, which Verus does not support.
+                # The prelude's `unwrap_infallible(r) requires r is Ok` turns "cannot fail" into an obligation at each step, and
+                # the steps run in the order written (a `?` in the closure only ever leaves it on an error). Only closures whose
+                # body is a sequence of `EXPR?;` statements and a tail expression are taken; anything else is UNDECIDED.
+                for m_ in re.finditer(rb"\bwith_infallible\s*\(\s*\|\|\s*\{", src[bo:bc]):
+                    o0 = bo + m_.end() - 1
+                    depth, k = 0, o0
+                    while k < bc:
+                        ch = src[k:k + 1]
+                        if ch in b"{([":
+                            depth += 1
+                        elif ch in b"})]":
+                            depth -= 1
+                            if depth == 0:
+                                break
+                        k += 1
+                    mc = re.match(rb"\s*\)", src[k + 1:bc])
+                    if depth != 0 or not mc:
+                        raise Undecided(f"{d.path}: with_infallible desugaring: closure body not delimited")
+                    body = src[o0 + 1:k].decode()
+                    if "//" in body or "/*" in body:
+                        body = re.sub(r"//[^\n]*", "", body)
+                    parts, depth, cur = [], 0, ""
+                    for ch in body:
+                        if ch in "{([":
+                            depth += 1
+                        elif ch in "})]":
+                            depth -= 1
+                        if ch == ";" and depth == 0:
+                            parts.append((cur.strip(), True))
+                            cur = ""
+                        else:
+                            cur += ch
+                            if ch == "}" and depth == 0 and re.match(r"(if|match|for|while|loop|unsafe|\{)", cur.strip()):
+                                raise Undecided(f"{d.path}: with_infallible desugaring: the closure has a block statement "
+                                                f"(`{cur.strip()[:30]}..`): only `EXPR?;` steps and a tail expression are taken")
+                    if cur.strip():
+                        parts.append((cur.strip(), False))
+                    outp = []
+                    for txt, semi in parts:
+                        if semi:
+                            if not txt.endswith("?") or re.match(r"(let|return|if|match|for|while|loop)\b", txt):
+                                raise Undecided(f"{d.path}: with_infallible desugaring: statement `{txt[:40]}` is not `EXPR?;`")
+                            outp.append("unwrap_infallible(" + txt[:-1].rstrip() + ");")
+                        else:
+                            if txt.endswith("?"):
+                                raise Undecided(f"{d.path}: with_infallible desugaring: tail `{txt[:40]}`")
+                            outp.append("unwrap_infallible(" + txt + ")")
+                    add(bo + m_.start(), k + 1 + mc.end(), "{ " + " ".join(outp) + " }", "DESUGAR_WITH_INFALLIBLE")
             elif o == "desugar(or_guard)":
                 # `A | B if g => body` -> `A if g => body, B if g => body` (Verus: or-pattern with a guard unsupported)
                 if not it.get("or_guards"):
